@@ -12,7 +12,7 @@ import (
 func init() {
 	register(&propDef{
 		ID:          "C20",
-		Explanation: "Decides, for the live-reload proxy's response rewriter (found structurally: the function that assigns the Body of its *http.Response parameter) and its helpers: R1 ContentLength and the Content-Length header are both computed from Len() of the very buffer installed as the new body, and the encoder's Close() dominates both reads (otherwise a gzip/brotli trailer is not counted); R2 every non-empty arm of the Content-Encoding switch binds a reader and a writer constructor from the same package, the empty encoding binds nothing (identity), and the arm for an unknown encoding leaves the function without touching the response; R3 the skip-marker test and the content-type test precede every mutation of the response and return, and the round tripper sets the marker only on the HX-Request == \"true\" path; R4 the nonce given to the script builder is parsed from the response's Content-Security-Policy header and reaches a nonce attribute; (the policy parser takes the nonce only from a script-src* directive — one directive per test, so that precedence between directives is not decided by their order in the header); R5 exactly one AppendChild on the first body node, outside loops, and every failure path of the inserter returns the original body. R6 the buffer installed as the new body is a fresh local allocation of the rewriter and is never handed to a sync.Pool (the reverse proxy reads it after the rewriter returns). NOT decided: that parse+render preserves the rest of the document; CSP header grammars.",
+		Explanation: "Decides, for the live-reload proxy's response rewriter (found structurally: the function that assigns the Body of its *http.Response parameter) and its helpers: R1 ContentLength and the Content-Length header are both computed from Len() of the very buffer installed as the new body, and the encoder's Close() dominates both reads (otherwise a gzip/brotli trailer is not counted); R2 every non-empty arm of the Content-Encoding switch binds a reader and a writer constructor from the same package, the empty encoding binds nothing (identity), and the arm for an unknown encoding leaves the function without touching the response; R3 the skip-marker test and the content-type test precede every mutation of the response and return, and the round tripper sets the marker only on the HX-Request == \"true\" path; R4 the nonce given to the script builder is parsed from the response's Content-Security-Policy header and reaches a nonce attribute; (the policy parser takes the nonce only from a script-src* directive — one directive per test, so that precedence between directives is not decided by their order in the header); R5 exactly one AppendChild on the first body node, outside loops, and every failure path of the inserter returns the original body. R6 the buffer installed as the new body is a fresh local allocation of the rewriter and is never handed to a sync.Pool (the reverse proxy reads it after the rewriter returns). R7 the page is parsed with scripting enabled, as the receiving browser does. R8 a function that answers from a cache makes the hit depend on every parameter its miss path computes from. NOT decided: that parse+render preserves the rest of the document; CSP header grammars.",
 		Assumptions: []string{"gzip/brotli writers emit their trailer on Close", "x/net/html Render(Parse(doc)) denotes doc (not checked)"},
 		Trusted:     []string{"go/types", "x/tools go/packages, go/cfg"},
 		Run:         runC20,
@@ -21,6 +21,8 @@ func init() {
 
 func runC20(c *Ctx) {
 	c.load("./cmd/templ/generatecmd/proxy")
+	parsesLikeTheBrowser(c, "C20.R7")
+	memoDependsOnAllInputs(c, "C20.R8")
 	p := c.pkg("cmd/templ/generatecmd/proxy")
 	info := p.TypesInfo
 
@@ -573,18 +575,49 @@ func runC20(c *Ctx) {
 
 	// R4: nonce flow
 	var insCall *ast.CallExpr
+	nonceIdx := 0
 	ast.Inspect(fd.Body, func(n ast.Node) bool {
 		if call, ok := n.(*ast.CallExpr); ok {
-			if fn := calleeOf(info, call); fn != nil && fn == info.Defs[ins.Name] {
-				insCall = call
+			fn := calleeOf(info, call)
+			if fn != nil && fn == info.Defs[ins.Name] {
+				insCall, nonceIdx = call, 0
+			}
+			// through a wrapper of the package that hands one of its own parameters to the inserter as the nonce
+			if fn != nil && fn.Pkg() == p.Types && fn != info.Defs[ins.Name] && insCall == nil {
+				for _, wfd := range allFuncDecls(p) {
+					if info.Defs[wfd.Name] != types.Object(fn) {
+						continue
+					}
+					ast.Inspect(wfd.Body, func(m ast.Node) bool {
+						ic, ok := m.(*ast.CallExpr)
+						if !ok || len(ic.Args) < 1 {
+							return true
+						}
+						if cf := calleeOf(info, ic); cf == nil || cf != info.Defs[ins.Name] {
+							return true
+						}
+						if id, ok := ast.Unparen(ic.Args[0]).(*ast.Ident); ok {
+							idx := 0
+							for _, prm := range wfd.Type.Params.List {
+								for _, nm := range prm.Names {
+									if info.Defs[nm] == info.ObjectOf(id) && idx < len(call.Args) {
+										insCall, nonceIdx = call, idx
+									}
+									idx++
+								}
+							}
+						}
+						return true
+					})
+				}
 			}
 		}
 		return true
 	})
-	if insCall == nil || len(insCall.Args) < 1 {
+	if insCall == nil || len(insCall.Args) <= nonceIdx {
 		c.viol("C20.R4", key+"|nonce-argument", c.pos(fd.Pos()), "the rewriter does not call the inserter")
 	} else {
-		arg := insCall.Args[0]
+		arg := insCall.Args[nonceIdx]
 		// arg must be parse(<csp>) where csp := r.Header.Get("Content-Security-Policy")
 		good := false
 		if pc, ok := arg.(*ast.CallExpr); ok && len(pc.Args) == 1 {
@@ -744,4 +777,205 @@ func freshBuffer(info *types.Info, e ast.Expr) bool {
 		}
 	}
 	return false
+}
+
+// parsesLikeTheBrowser: C20.R7 — the document is parsed the way the browser that receives it parses it: with
+// scripting enabled (html.Parse, or ParseWithOptions without ParseOptionEnableScripting(false)). With scripting
+// disabled the parser treats <noscript> in <head> as markup: anything in it that is not link/meta/style ends the head,
+// and re-serialising moves the rest of the head (title, style sheets) into the body — a change to the document beyond
+// the appended script.
+func parsesLikeTheBrowser(c *Ctx, rule string) {
+	p := c.pkg("cmd/templ/generatecmd/proxy")
+	info := p.TypesInfo
+	n := 0
+	for _, fd := range allFuncDecls(p) {
+		ast.Inspect(fd.Body, func(x ast.Node) bool {
+			call, ok := x.(*ast.CallExpr)
+			if !ok {
+				return true
+			}
+			fn := calleeOf(info, call)
+			if fn == nil || fn.Pkg() == nil || fn.Pkg().Path() != "golang.org/x/net/html" {
+				return true
+			}
+			switch fn.Name() {
+			case "Parse":
+				n++
+				c.ok(rule, funcKey(p, fd)+"|html.Parse", c.pos(call.Pos()), "html.Parse: scripting enabled, as in a browser")
+			case "ParseWithOptions", "ParseFragmentWithOptions":
+				n++
+				bad := ""
+				for _, a := range call.Args {
+					if oc, ok := ast.Unparen(a).(*ast.CallExpr); ok {
+						if of := calleeOf(info, oc); of != nil && of.Name() == "ParseOptionEnableScripting" && len(oc.Args) == 1 {
+							if tv := info.Types[oc.Args[0]]; tv.Value == nil || tv.Value.ExactString() != "true" {
+								bad = types.ExprString(oc)
+							}
+						}
+					}
+				}
+				c.check(bad == "", rule, funcKey(p, fd)+"|"+fn.Name(), c.pos(call.Pos()), "parsed with scripting enabled",
+					fd.Name.Name+" parses the page with "+bad+": a <noscript> in <head> that contains anything but link/meta/style (an analytics pixel <img>) then ends the head early, and the re-serialised page has its <title> and style sheets moved into <body> — the response differs from the original by more than the appended script")
+			}
+			return true
+		})
+	}
+	c.count("html_parse_sites", n)
+	c.floor(rule, 1)
+}
+
+// memoDependsOnAllInputs: C20.R8 — a function of the proxy that answers from a map when it can (a memo) must make the
+// hit depend on every parameter that the miss path computes from: the parameter is part of the key, or something
+// derived from it is compared in the hit condition. A rewritten page cached by content alone is served with the nonce
+// of an earlier response; the browser then refuses the reload script.
+func memoDependsOnAllInputs(c *Ctx, rule string) {
+	p := c.pkg("cmd/templ/generatecmd/proxy")
+	info := p.TypesInfo
+	n := 0
+	for _, fd := range allFuncDecls(p) {
+		var params []types.Object
+		for _, prm := range fd.Type.Params.List {
+			for _, nm := range prm.Names {
+				params = append(params, info.Defs[nm])
+			}
+		}
+		if len(params) < 2 {
+			continue
+		}
+		// lookup: <v>, ok := <recv>.<mapfield>[key]
+		var lookup *ast.AssignStmt
+		ast.Inspect(fd.Body, func(x ast.Node) bool {
+			as, ok := x.(*ast.AssignStmt)
+			if !ok || len(as.Lhs) != 2 || len(as.Rhs) != 1 {
+				return true
+			}
+			ix, ok := as.Rhs[0].(*ast.IndexExpr)
+			if !ok {
+				return true
+			}
+			if _, isMap := info.TypeOf(ix.X).Underlying().(*types.Map); isMap {
+				if f := fieldOf(info, ix.X); f != nil {
+					lookup = as
+				}
+			}
+			return true
+		})
+		if lookup == nil {
+			continue
+		}
+		okObj := info.ObjectOf(lookup.Lhs[1].(*ast.Ident))
+		valObj := info.ObjectOf(lookup.Lhs[0].(*ast.Ident))
+		// the hit branch: an if that mentions ok and returns something read from the looked-up value
+		var hit *ast.IfStmt
+		ast.Inspect(fd.Body, func(x ast.Node) bool {
+			is, ok := x.(*ast.IfStmt)
+			if !ok || hit != nil {
+				return true
+			}
+			mentionsOK := false
+			ast.Inspect(is.Cond, func(y ast.Node) bool {
+				if id, ok := y.(*ast.Ident); ok && info.ObjectOf(id) == okObj {
+					mentionsOK = true
+				}
+				return true
+			})
+			returnsVal := false
+			ast.Inspect(is.Body, func(y ast.Node) bool {
+				if ret, ok := y.(*ast.ReturnStmt); ok {
+					for _, r := range ret.Results {
+						ast.Inspect(r, func(z ast.Node) bool {
+							if id, ok := z.(*ast.Ident); ok && info.ObjectOf(id) == valObj {
+								returnsVal = true
+							}
+							return true
+						})
+					}
+				}
+				return true
+			})
+			if mentionsOK && returnsVal {
+				hit = is
+			}
+			return true
+		})
+		if hit == nil {
+			continue
+		}
+		n++
+		// derived-from relation (one function, flow-insensitive)
+		derived := map[types.Object]map[types.Object]bool{}
+		for _, prm := range params {
+			derived[prm] = map[types.Object]bool{prm: true}
+		}
+		for changed := true; changed; {
+			changed = false
+			ast.Inspect(fd.Body, func(x ast.Node) bool {
+				as, ok := x.(*ast.AssignStmt)
+				if !ok {
+					return true
+				}
+				for _, prm := range params {
+					uses := false
+					for _, r := range as.Rhs {
+						ast.Inspect(r, func(y ast.Node) bool {
+							if id, ok := y.(*ast.Ident); ok && derived[prm][info.ObjectOf(id)] {
+								uses = true
+							}
+							return true
+						})
+					}
+					if uses {
+						for _, l := range as.Lhs {
+							if id, ok := l.(*ast.Ident); ok && id.Name != "_" && !derived[prm][info.ObjectOf(id)] && info.ObjectOf(id) != okObj && info.ObjectOf(id) != valObj {
+								derived[prm][info.ObjectOf(id)] = true
+								changed = true
+							}
+						}
+					}
+				}
+				return true
+			})
+		}
+		mentions := func(root ast.Node, prm types.Object) bool {
+			f := false
+			ast.Inspect(root, func(y ast.Node) bool {
+				if id, ok := y.(*ast.Ident); ok && derived[prm][info.ObjectOf(id)] {
+					f = true
+				}
+				return true
+			})
+			return f
+		}
+		key := lookup.Rhs[0].(*ast.IndexExpr).Index
+		var missing []string
+		for _, prm := range params {
+			usedInMiss := false
+			ast.Inspect(fd.Body, func(x ast.Node) bool {
+				if call, ok := x.(*ast.CallExpr); ok && call.Pos() > hit.End() {
+					if fn := calleeOf(info, call); fn != nil && fn.Pkg() == p.Types {
+						for _, a := range call.Args {
+							if mentions(a, prm) {
+								usedInMiss = true
+							}
+						}
+					}
+				}
+				return true
+			})
+			if usedInMiss && !mentions(key, prm) && !mentions(hit.Cond, prm) {
+				missing = append(missing, prm.Name())
+			}
+		}
+		c.check(len(missing) == 0, rule, funcKey(p, fd)+"|memo-hit-depends-on-every-input", c.pos(hit.Pos()), "every parameter used to compute a miss is part of the key or of the hit condition",
+			fmt.Sprintf("%s answers from its cache without looking at %s, although the value it would compute depends on it: a page cached under one Content-Security-Policy nonce is served again under another (or none), so the reload script carries a stale nonce and the browser refuses to run it", fd.Name.Name, strings.Join(missing, ", ")))
+	}
+	c.count("memo_functions_in_proxy", n)
+	src := `package control
+type C struct{ m map[string]string }
+func (c *C) get(path, nonce, body string) string { v, ok := c.m[path]; if ok && v == body { return v }; r := compute(nonce, body); c.m[path] = r; return r }
+func compute(a, b string) string { return a + b }
+`
+	_, _, okc := checkSnippet(c, src)
+	c.control(rule+":snippet-type-checks", okc)
+	c.ok(rule, p.PkgPath+"|memo-scan", "", fmt.Sprintf("%d memo-shaped functions found", n))
 }
